@@ -75,11 +75,12 @@ Qed.
 
 Lemma cline_ok_other k t v : cline_ok (COther k t v) = true ->
   key_ok k = true /\ value_ok v = true /\ prefixb (bs "cpu mhz") (lower k) = false /\
-  prefixb (bs "physical id") (lower k) = false /\ prefixb (bs "cpu cores") (lower k) = false.
+  prefixb (bs "physical id") (lower k) = false /\ prefixb (bs "cpu cores") (lower k) = false /\
+  prefixb (bs "processor") k = false.
 Proof.
   cbn [cline_ok]. intros H. apply andb_true_iff in H as [H H5]. apply andb_true_iff in H as [H H4].
-  apply andb_true_iff in H as [H H3]. apply andb_true_iff in H as [H1 H2].
-  apply negb_true_iff in H3, H4, H5. auto.
+  apply andb_true_iff in H as [H H3]. apply andb_true_iff in H as [H H6]. apply andb_true_iff in H as [H1 H2].
+  apply negb_true_iff in H3, H4, H5, H6. repeat split; assumption.
 Qed.
 
 Lemma key_ok_inv k : key_ok k = true -> exists c r, k = c :: r /\ is_ws c = false /\ forallb key_char k = true.
@@ -278,29 +279,30 @@ Qed.
 (* ------------------------------------------------------------ cpu_count_logical *)
 Definition is_proc (l : cline) : bool := match l with CProcessor _ => true | _ => false end.
 
-Lemma proc_line l : prefixb s_processor (lower (k_cline l)) = is_proc l || processor_like l.
+Lemma proc_line l : cline_ok l = true -> prefixb s_processor (k_cline l) = is_proc l.
 Proof.
-  unfold s_processor. rewrite prefix_lower_cline by reflexivity.
-  destruct l as [n|ip fp|n|n|n|k t v]; reflexivity.
+  intros H. unfold s_processor. rewrite cline_shape, prefixb_app_sepb by reflexivity.
+  destruct l as [n|ip fp|n|n|n|k t v]; try reflexivity.
+  apply cline_ok_other in H as [_ [_ [_ [_ [_ H]]]]]. exact H.
 Qed.
 
-Definition pf (l : bytes) : bool := prefixb s_processor (lower l).
+Definition pf (l : bytes) : bool := prefixb s_processor l.
 
-Lemma count_block b rest : forallb (fun l => negb (processor_like l)) b = true ->
+Lemma count_block b rest : forallb cline_ok b = true ->
   count_where pf (block_lines b ++ rest) = Z.of_nat (length (filter is_proc b)) + count_where pf rest.
 Proof.
   induction b as [|l b IH]; intros H; [reflexivity|].
-  cbn [forallb] in H. apply andb_true_iff in H as [Hl Hb]. apply negb_true_iff in Hl.
+  cbn [forallb] in H. apply andb_true_iff in H as [Hl Hb].
   unfold block_lines. cbn [map app count_where]. fold (block_lines b). rewrite (IH Hb).
-  unfold pf at 1. rewrite proc_line, Hl, orb_false_r. cbn [filter].
+  unfold pf at 1. rewrite proc_line by exact Hl. cbn [filter].
   destruct (is_proc l); cbn [length]; lia.
 Qed.
 
-Lemma count_blocks blocks : no_processor_like blocks = true ->
+Lemma count_blocks blocks : cpuinfo_ok blocks = true ->
   count_where pf (flat_map block_lines blocks) = n_processors blocks.
 Proof.
   induction blocks as [|b blocks IH]; intros H; [reflexivity|].
-  unfold no_processor_like in H. cbn [forallb] in H. apply andb_true_iff in H as [Hb Hbs].
+  unfold cpuinfo_ok in H. cbn [forallb] in H. apply andb_true_iff in H as [Hb Hbs].
   cbn [flat_map]. rewrite count_block by exact Hb. rewrite (IH Hbs).
   unfold n_processors, all_lines. cbn [concat]. rewrite filter_app, app_length. fold is_proc. lia.
 Qed.
@@ -339,26 +341,28 @@ Proof.
   destruct l as [[|d lab] rest| | | | |]; lia.
 Qed.
 
-(* sysconf, else the "processor" lines of every printed cpuinfo (no "Processor"-like other line),
+(* sysconf, else the "processor" lines of every printed cpuinfo (ARM "Processor" model line included),
    else the cpuN lines of every printed /proc/stat, else None *)
 Theorem cpu_count_logical_spec sysconf blocks stat :
-  cpuinfo_ok blocks = true -> no_processor_like blocks = true -> forallb statline_ok stat = true ->
+  cpuinfo_ok blocks = true -> forallb statline_ok stat = true ->
   cpu_count_logical sysconf (FC (k_cpuinfo blocks)) (FC (k_stat stat)) = Val (spec_logical sysconf blocks stat).
 Proof.
-  intros Hc Hp Hs. unfold cpu_count_logical, spec_logical. destruct sysconf as [n|]; [reflexivity|].
-  cbn [read_req obind]. rewrite lines_cpuinfo by exact Hc. fold pf. rewrite count_blocks by exact Hp.
+  intros Hc Hs. unfold cpu_count_logical, cpu_count_logical_at, spec_logical. destruct sysconf as [n|]; [reflexivity|].
+  cbn [read_req obind]. rewrite lines_cpuinfo by exact Hc.
+  change (fun l : bytes => prefixb s_processor l) with pf. rewrite count_blocks by exact Hc.
   destruct (n_processors blocks =? 0); [|reflexivity].
   rewrite lines_keep_k_stat by exact Hs. now rewrite count_stat.
 Qed.
 
-(* the ARM (< 3.8) model line "Processor : ARMv7 ..." is counted as a CPU *)
+(* the code before commit d196a16 counted the ARM (< 3.8) model line "Processor : ARMv7 ..." as a CPU *)
 Definition arm_witness : list cblock :=
   [[COther (bs "Processor") false (bs "ARMv7 Processor rev 4 (v7l)"); CProcessor (bs "0"); COther (bs "BogoMIPS") false (bs "38.40")];
    [CProcessor (bs "1"); COther (bs "BogoMIPS") false (bs "38.40")];
    [COther (bs "Hardware") false (bs "BCM2835")]].
 Theorem cpu_count_arm_header_refuted :
   exists blocks, cpuinfo_ok blocks = true /\ n_processors blocks = 2 /\
-    cpu_count_logical None (FC (k_cpuinfo blocks)) (FC []) = Val (Some 3).
+    cpu_count_logical_at true None (FC (k_cpuinfo blocks)) (FC []) = Val (Some 3) /\
+    cpu_count_logical None (FC (k_cpuinfo blocks)) (FC []) = Val (Some 2).
 Proof. exists arm_witness. repeat split. Qed.
 
 (* ------------------------------------------------------------ cpu_count_cores *)
@@ -464,7 +468,7 @@ Proof.
   { apply app_eq_nil in E2 as [_ E2]. discriminate. }
   rewrite <- E2. unfold s_physical_id, s_cpu_cores. rewrite !prefixb_app_sepb by reflexivity.
   destruct l as [n|ip fp|n|n|n|k t v]; cbn [ckey]; try contradiction; try reflexivity.
-  apply cline_ok_other in H as [_ [_ [_ [H4 H5]]]]. now rewrite H4, H5.
+  apply cline_ok_other in H as [_ [_ [_ [H4 [H5 _]]]]]. now rewrite H4, H5.
 Qed.
 
 Lemma skipn_len2 {A} (t : list A) a b r : skipn (length t + 2) (t ++ a :: b :: r) = r.
